@@ -632,9 +632,21 @@ class Lowerer:
         raise Unsupported('call through %s (line %s)' % (c['kind'], src_line(n)))
 
     def free_fn_name(self, c, rd):
-        # qualified name is not in the JSON; recover std:: from the nested name specifier text if present
+        """The nested-name-specifier is not in clang-14's JSON: the qualified spelling is read from
+        the source text of the callee expression (QFile::remove, SimplePipelinePtr::create, std::sort)."""
         name = rd['name']
-        q = c.get('nestedNameSpecifier') or ''
+        txt = source_text(c)
+        if txt:
+            txt = re.sub(r'\s+', '', txt)
+            txt = re.sub(r'<.*>$', '', txt)     # explicit template arguments of the call
+            if re.fullmatch(r'(::)?[A-Za-z_][A-Za-z0-9_]*(<[^()]*>)?(::[A-Za-z_][A-Za-z0-9_]*(<[^()]*>)?)*', txt) and txt.split('::')[-1].split('<')[0] == name.split('<')[0]:
+                q = txt.lstrip(':')
+                if '::' in q:
+                    scope, _, last = q.rpartition('::')
+                    return mangle_core(scope) + '_' + self.opname(last)
+                if q in ('move', 'forward', 'as_const', 'find_if', 'sort'):
+                    return 'std_' + q
+                return mangle_core(q)
         if name in ('move', 'forward', 'as_const', 'find_if', 'sort', 'min', 'max'):
             return 'std_' + name
         return mangle_core(name)
@@ -1260,6 +1272,18 @@ ENUM_MODEL_TYPES = {'QtMsgType', 'Handler_HandlerType', 'QIODevice_OpenModeFlag'
                     'QEvent_Type', 'Qt_EventPriority', 'QSettings_Format', 'QUuid_StringFormat', 'Qt_TimeSpec'}
 RAII_TYPES = {'QMutexLocker', 'QMutexLocker_QMutex', 'QMutexLocker_QRecursiveMutex'}
 C_KEYWORDS = {'stdout', 'stderr', 'stdin', 'register', 'restrict', 'auto', 'default', 'signed', 'unsigned', 'inline'}
+
+_src_cache = {}
+def source_text(n):
+    r = n.get('range', {})
+    b, e = r.get('begin', {}), r.get('end', {})
+    b = b.get('spellingLoc', b); e = e.get('spellingLoc', e)
+    f = b.get('file')
+    if not f or f != e.get('file') or 'offset' not in b or 'offset' not in e: return None
+    if f not in _src_cache:
+        try: _src_cache[f] = open(f, 'rb').read()
+        except OSError: return None
+    return _src_cache[f][b['offset']:e['offset'] + e.get('tokLen', 0)].decode('utf-8', 'replace')
 
 def split_ptr(nt):
     q, d = nt
